@@ -58,15 +58,47 @@ theorem fc_feeMsgs_other (self : Addr) (p : Params) (a : Nat) (hd : p.fee.denom 
   have : ¬ a < p.fee.amount := by omega
   simp [feeMsgs, hd, transferFundsToLaunchpadDao, mustPay, this, ha, bind, Except.bind, pure, Except.pure]
 
+/-- bank after a native-fee create with burned part `B`: payment to the factory, `B` burned, the rest of the fee to the pool -/
+def bankNativeB (b : Bank) (s : Supply) (sender self : Addr) (a fee B : Nat) : Bank × Supply :=
+  (credit (debit (debit (credit (debit b sender ⟨NATIVE, a⟩) self ⟨NATIVE, a⟩) self ⟨NATIVE, B⟩)
+      self ⟨NATIVE, fee - B⟩) FAIRBURN_POOL ⟨NATIVE, fee - B⟩,
+   fun d => if d = NATIVE then s d - B else s d)
+
 /-- bank after a native-fee create: payment to the factory, `burnPart fee` burned, the rest of the fee to the fair-burn pool -/
 def bankNative (b : Bank) (s : Supply) (sender self : Addr) (a fee : Nat) : Bank × Supply :=
-  (credit (debit (debit (credit (debit b sender ⟨NATIVE, a⟩) self ⟨NATIVE, a⟩) self ⟨NATIVE, burnPart fee⟩)
-      self ⟨NATIVE, fee - burnPart fee⟩) FAIRBURN_POOL ⟨NATIVE, fee - burnPart fee⟩,
-   fun d => if d = NATIVE then s d - burnPart fee else s d)
+  bankNativeB b s sender self a fee (burnPart fee)
 
 /-- bank after a non-native-fee create: the whole payment passes through the factory to the launchpad DAO -/
 def bankOther (b : Bank) (s : Supply) (sender self : Addr) (d : Denom) (a : Nat) : Bank × Supply :=
   (credit (debit (credit (debit b sender ⟨d, a⟩) self ⟨d, a⟩) self ⟨d, a⟩) LAUNCHPAD_DAO ⟨d, a⟩, s)
+
+/-- the bank executing "payment in, burn `B`, pool `fee − B`" for ANY split `B ≤ fee` -/
+theorem fc_exec_native (b : Bank) (s : Supply) (sender self : Addr) (a fee B : Nat) (ha : a ≠ 0) (hfee : fee ≤ a)
+    (hB : B ≤ fee) :
+    ((transfer? b sender self ⟨NATIVE, a⟩).bind fun b1 =>
+        execMsgs self (b1, s) [Msg.burn ⟨NATIVE, B⟩, Msg.fundPool self ⟨NATIVE, fee - B⟩]) =
+      if a ≤ b sender NATIVE ∧ (B ≠ 0 ∧ B ≠ fee) then some (bankNativeB b s sender self a fee B) else none := by
+  unfold bankNativeB
+  simp only [transfer?, fc_debit?_eq, execMsgs, execMsg]
+  by_cases h1 : a ≤ b sender NATIVE
+  · by_cases e1 : B = 0
+    · simp [ha, h1, e1]
+    · have k1 : B ≤ credit (debit b sender ⟨NATIVE, a⟩) self ⟨NATIVE, a⟩ self NATIVE := by
+        have := fc_credit_self (debit b sender ⟨NATIVE, a⟩) self ⟨NATIVE, a⟩
+        simp only [] at this
+        rw [this]; omega
+      by_cases e3 : B = fee
+      · have e2 : fee - B = 0 := by omega
+        simp [ha, h1, e1, e2, e3, k1]
+      · have e2 : fee - B ≠ 0 := by omega
+        have k2 : fee - B ≤ debit (credit (debit b sender ⟨NATIVE, a⟩) self ⟨NATIVE, a⟩) self ⟨NATIVE, B⟩ self NATIVE := by
+          have h := fc_debit_self (credit (debit b sender ⟨NATIVE, a⟩) self ⟨NATIVE, a⟩) self ⟨NATIVE, B⟩
+          have h' := fc_credit_self (debit b sender ⟨NATIVE, a⟩) self ⟨NATIVE, a⟩
+          simp only [] at h h'
+          rw [h, h']; omega
+        simp [ha, h1, e1, e2, e3, k1]
+        omega
+  · simp [ha, h1]
 
 theorem fc_bankStep_native (b : Bank) (s : Supply) (self : Addr) (p : Params) (m : CreateMsg) (a : Nat)
     (hd : p.fee.denom = NATIVE) (hf : m.funds = [⟨NATIVE, a⟩]) (ha : a ≠ 0) (hfee : p.fee.amount ≤ a) :
@@ -75,33 +107,7 @@ theorem fc_bankStep_native (b : Bank) (s : Supply) (self : Addr) (p : Params) (m
       then some (bankNative b s m.sender self a p.fee.amount) else none := by
   unfold bankStep bankNative
   rw [hf, fc_feeMsgs_native self p a hd ha hfee]
-  simp only [transfer?, fc_debit?_eq, execMsgs, execMsg]
-  have hle := fc_burnPart_le p.fee.amount
-  generalize burnPart p.fee.amount = B at hle ⊢
-  by_cases h1 : a ≤ b m.sender NATIVE
-  · by_cases e1 : B = 0
-    · simp [ha, h1, e1]
-    · by_cases e3 : B = p.fee.amount
-      · have e2 : p.fee.amount - B = 0 := by omega
-        have k1 : B ≤ credit (debit b m.sender ⟨NATIVE, a⟩) self ⟨NATIVE, a⟩ self NATIVE := by
-          have := fc_credit_self (debit b m.sender ⟨NATIVE, a⟩) self ⟨NATIVE, a⟩
-          simp only [] at this
-          rw [this]; omega
-        simp [ha, h1, e1, e2, e3, k1]
-      · have e2 : p.fee.amount - B ≠ 0 := by omega
-        have k1 : B ≤ credit (debit b m.sender ⟨NATIVE, a⟩) self ⟨NATIVE, a⟩ self NATIVE := by
-          have := fc_credit_self (debit b m.sender ⟨NATIVE, a⟩) self ⟨NATIVE, a⟩
-          simp only [] at this
-          rw [this]; omega
-        have k2 : p.fee.amount - B ≤
-            debit (credit (debit b m.sender ⟨NATIVE, a⟩) self ⟨NATIVE, a⟩) self ⟨NATIVE, B⟩ self NATIVE := by
-          have h := fc_debit_self (credit (debit b m.sender ⟨NATIVE, a⟩) self ⟨NATIVE, a⟩) self ⟨NATIVE, B⟩
-          have h' := fc_credit_self (debit b m.sender ⟨NATIVE, a⟩) self ⟨NATIVE, a⟩
-          simp only [] at h h'
-          rw [h, h']; omega
-        simp [ha, h1, e1, e2, e3, k1]
-        omega
-  · simp [ha, h1]
+  exact fc_exec_native b s m.sender self a p.fee.amount (burnPart p.fee.amount) ha hfee (fc_burnPart_le _)
 
 theorem fc_bankStep_other (b : Bank) (s : Supply) (self : Addr) (p : Params) (m : CreateMsg) (a : Nat)
     (hd : p.fee.denom ≠ NATIVE) (hf : m.funds = [⟨p.fee.denom, a⟩]) (ha : a ≠ 0) (hfee : p.fee.amount ≤ a) :
@@ -575,20 +581,20 @@ theorem C08_fee_balances_native (w : World) (self : Addr) (f : Factory) (m : Cre
     subst this
     rw [← hn]; exact hf'.1
   refine ⟨a, by rw [← hn]; exact hfu, hfee, ?_, hle, ?_, ?_, ?_, ?_, ?_⟩
-  · rw [hbal]; simp [bankNative, credit, debit, h1, h2]
-  · rw [hbal]; simp [bankNative, credit, debit, h3, Ne.symm h1]; omega
-  · rw [hbal]; simp [bankNative, credit, debit, Ne.symm h2, Ne.symm h3]
-  · rw [hsup]; simp [bankNative]
+  · rw [hbal]; simp [bankNative, bankNativeB, credit, debit, h1, h2]
+  · rw [hbal]; simp [bankNative, bankNativeB, credit, debit, h3, Ne.symm h1]; omega
+  · rw [hbal]; simp [bankNative, bankNativeB, credit, debit, Ne.symm h2, Ne.symm h3]
+  · rw [hsup]; simp [bankNative, bankNativeB]
   · intro x d hx
     rw [hbal]
-    simp only [bankNative, credit, debit]
+    simp only [bankNative, bankNativeB, credit, debit]
     by_cases hd : d = NATIVE
     · have hx' : x ≠ m.sender ∧ x ≠ self ∧ x ≠ FAIRBURN_POOL := by
         refine ⟨fun e => hx ⟨hd, Or.inl e⟩, fun e => hx ⟨hd, Or.inr (Or.inl e)⟩, fun e => hx ⟨hd, Or.inr (Or.inr e)⟩⟩
       simp [hx'.1, hx'.2.1, hx'.2.2]
     · simp [hd]
   · intro d hd
-    rw [hsup]; simp [bankNative, hd]
+    rw [hsup]; simp [bankNative, bankNativeB, hd]
 
 /-- balances after a **non-native-fee** create (payer, factory, DAO pairwise distinct): the payer loses what it attached,
 all of it arrives at the launchpad DAO, the factory keeps nothing, no supply changes. -/
